@@ -13,6 +13,7 @@ import PPV.Model.FixedNode
 import PPV.Model.GroupSum
 import PPV.Gen.FluidData
 import PPV.Model.ToolboxRun
+import PPV.Model.NxGraphRun
 
 open PPV
 
@@ -73,6 +74,7 @@ def handle (line : String) : String :=
     let v := PPV.Model.Newton.Run.parseRat ((parts.getD 2 "").trimAscii.toString)
     PPV.Model.Newton.Run.showRat (PPV.Model.Fluid.pumpPressure reg v)
   | "toolbox" :: _ => PPV.Model.Toolbox.Run.handle (line.trimAscii.toString.splitOn "::")
+  | "nxgraph" :: rs :: rv :: _ => PPV.Model.NxGraph.Run.handle rs rv (line.trimAscii.toString.splitOn "::")
   | _ => "bad-op"
 
 partial def loop (h : IO.FS.Stream) (out : IO.FS.Stream) : IO Unit := do
